@@ -328,6 +328,18 @@ def move_repoints_rule(run, classes):
                               'the move constructor reads s.%s after resetting it at line %s: the value seen is the cleared one, not the state being transferred (a bound socket is treated as unbound, so the registry is not re-pointed and keeps the address of the moved-from object)' % (fld, ev[0].get('l')))
         if not nbad:
             run.ok('R7', 'move-read-after-reset', '%s(&&)' % cls, mv.loc(), 'no field of the source is read after its reset (%d resets, %d reads in the body)' % (sum(len(v) for v in resets.values()), len(reads)))
+        # the moved-from object gives its binding away: every endpoint-typed view of it (the actual binding and the one
+        # local_endpoint() reports) is cleared in the source on every path, so a re-opened moved-from socket does not claim
+        # the endpoint that now belongs to the new object
+        recs = [r_ for r_ in fx.record('sim::asio::socket_base', required=False) or []] + fx.record(cls)
+        epf = sorted({f_['name'] for r_ in recs for f_ in r_['fields'] if f_['ty'].replace('const ', '').strip().endswith('endpoint')})
+        if len(epf) < 2:
+            run.broke('%s: fewer than two endpoint-typed members (m_bound_to, m_user_bound_to) - the binding views changed' % cls)
+        for fld in epf:
+            sites = resets.get(fld, [])
+            run.check(bool(sites) and q.on_all_paths(mv, sites), 'R7', 'move-source-unbound', '%s(&&): s.%s' % (cls, fld), mv.loc(),
+                      'the move constructor leaves s.%s as it was: the moved-from socket, once re-opened, reports the endpoint it gave away as its own local endpoint (two open sockets claim one endpoint; bind-only-when-unbound then refuses a legitimate bind)' % fld,
+                      'cleared in the source on every path')
         # the forwarder that packets in flight (and routes handed out after a later bind) end in is re-pointed at the new object
         # whenever there is one - not only when the socket happens to be bound at the time of the move
         fre = [c for c in mv.calls() if (q.callee_name(c) or '').endswith('sink_forwarder::reset') and c.get('args') and q.is_this(q.strip_casts(c['args'][0]))]
